@@ -2,6 +2,7 @@
   Helper lemmas for C02 / C03 / C18 (vote arithmetic, Pearson on `Rat`).
 -/
 import Mathlib.Algebra.Order.Field.Rat
+import Mathlib.Data.Rat.Floor
 import Mathlib.Tactic.Ring
 import Mathlib.Tactic.Linarith
 import Mathlib.Tactic.FieldSimp
@@ -1683,5 +1684,216 @@ theorem chooseCell_unanimous (types : List Nat) (n : Nat) (hn : n = types.length
   have := chooseCols_unanimous hv hch 1 w0 hw0 hV (by rw [hC, mul_one]) hz
   rw [hT] at this
   exact this
+
+end CTM.Election
+namespace CTM.Numeric
+
+/-! ### rounding -/
+
+theorem floor_le' (q : Rat) : ((q.floor : Int) : Rat) ≤ q := Int.floor_le q
+theorem lt_floor_add_one' (q : Rat) : q < ((q.floor : Int) : Rat) + 1 := Int.lt_floor_add_one q
+
+/-- `roundHalfEven` is a nearest integer, and the even one on a tie -/
+theorem roundHalfEven_spec (q : Rat) :
+    |((roundHalfEven q : Int) : Rat) - q| ≤ 1 / 2 ∧
+    (|((roundHalfEven q : Int) : Rat) - q| = 1 / 2 → roundHalfEven q % 2 = 0) := by
+  have h1 := floor_le' q
+  have h2 := lt_floor_add_one' q
+  unfold roundHalfEven
+  simp only
+  split
+  · next h =>
+    rw [abs_le]
+    refine ⟨⟨by linarith, by linarith⟩, ?_⟩
+    intro he
+    rw [abs_of_nonpos (by linarith)] at he
+    linarith
+  · split
+    · next h =>
+      push_cast
+      rw [abs_le]
+      refine ⟨⟨by linarith, by linarith⟩, ?_⟩
+      intro he
+      rw [abs_of_nonneg (by linarith)] at he
+      linarith
+    · next hn1 hn2 =>
+      have hr : q - (q.floor : Rat) = 1 / 2 := le_antisymm (not_lt.1 hn2) (not_lt.1 hn1)
+      split
+      · next hev =>
+        refine ⟨?_, fun _ => hev⟩
+        rw [abs_of_nonpos (by linarith)]; linarith
+      · next hodd =>
+        push_cast
+        refine ⟨?_, fun _ => by omega⟩
+        rw [abs_of_nonneg (by linarith)]; linarith
+
+theorem roundHalfEven_le_of_le_nat (q : Rat) (n : Nat) (h : q ≤ (n : Rat)) :
+    roundHalfEven q ≤ (n : Int) := by
+  have h1 := floor_le' q
+  have h2 := lt_floor_add_one' q
+  have hfl : q.floor ≤ (n : Int) := by
+    have : ((q.floor : Int) : Rat) ≤ ((n : Int) : Rat) := by push_cast; linarith
+    exact_mod_cast this
+  rcases hfl.eq_or_lt with he | hlt
+  · -- floor q = n, hence q = n
+    have hq : q - (q.floor : Rat) = 0 := by
+      rw [he]; push_cast
+      have : ((q.floor : Int) : Rat) = (n : Rat) := by rw [he]; push_cast; rfl
+      linarith
+    unfold roundHalfEven
+    simp only [hq]
+    norm_num
+    omega
+  · unfold roundHalfEven
+    simp only
+    split
+    · omega
+    · split
+      · omega
+      · split <;> omega
+
+theorem roundHalfEven_nonneg (q : Rat) (h : 0 ≤ q) : 0 ≤ roundHalfEven q := by
+  have hfl : 0 ≤ q.floor := Int.floor_nonneg.2 h
+  unfold roundHalfEven
+  simp only
+  split
+  · exact hfl
+  · split
+    · omega
+    · split <;> omega
+
+/-- the signed square is strictly monotone: deciding the arg-max on
+    `sign(r) r^2` decides it on `r` -/
+theorem signed_square_lt_iff (r r' : Rat) : r * |r| < r' * |r'| ↔ r < r' := by
+  rcases le_total 0 r with hr | hr <;> rcases le_total 0 r' with hr' | hr'
+  · rw [abs_of_nonneg hr, abs_of_nonneg hr']
+    constructor
+    · intro h; by_contra hn; nlinarith
+    · intro h; nlinarith
+  · rw [abs_of_nonneg hr, abs_of_nonpos hr']
+    constructor
+    · intro h; nlinarith [mul_self_nonneg r, mul_self_nonneg r']
+    · intro h; linarith
+  · rw [abs_of_nonpos hr, abs_of_nonneg hr']
+    constructor
+    · intro h
+      rcases hr.eq_or_lt with rfl | h1
+      · rcases hr'.eq_or_lt with h2 | h2
+        · rw [← h2] at h; simp at h
+        · exact h2
+      · linarith
+    · intro h
+      rcases hr'.eq_or_lt with h2 | h2
+      · rw [← h2]
+        have : r < 0 := by linarith
+        nlinarith
+      · nlinarith [mul_self_nonneg r, mul_pos h2 h2]
+  · rw [abs_of_nonpos hr, abs_of_nonpos hr']
+    constructor
+    · intro h; by_contra hn; nlinarith
+    · intro h; nlinarith
+
+end CTM.Numeric
+namespace CTM.Election
+open CTM.Numeric
+
+/-! ### correlation sums are bounded by the votes -/
+
+theorem sum_abs_bound (f : Nat → Nat) (g : Nat → Rat) : ∀ l : List Nat,
+    (∀ i ∈ l, |g i| ≤ (f i : Rat)) → |(l.map g).sum| ≤ (((l.map f).sum : Nat) : Rat)
+  | [], _ => by simp
+  | a :: l, h => by
+    have ih := sum_abs_bound f g l (fun i hi => h i (by simp [hi]))
+    have ha := h a (by simp)
+    simp only [List.map_cons, List.sum_cons]
+    push_cast
+    calc |g a + (l.map g).sum| ≤ |g a| + |(l.map g).sum| := abs_add_le _ _
+      _ ≤ _ := add_le_add ha ih
+
+/-- per leaf, the correlation sum of a tally is bounded by the votes when every
+    per-iteration correlation lies in [-1, 1] -/
+theorem corrOfLeaf_bound (rows : List (Nat × Rat)) (h : ∀ r ∈ rows, |r.2| ≤ 1) (j : Nat) :
+    |corrOfLeaf rows j| ≤ (countLeaf rows j : Rat) := by
+  induction rows with
+  | nil => simp [corrOfLeaf, countLeaf]
+  | cons r rows ih =>
+    rw [corrOfLeaf_cons, countLeaf_cons]
+    have ih' := ih (fun q hq => h q (by simp [hq]))
+    have hr := h r (by simp)
+    push_cast
+    by_cases hj : r.1 = j
+    · simp only [hj, if_true]
+      calc |r.2 + corrOfLeaf rows j| ≤ |r.2| + |corrOfLeaf rows j| := abs_add_le _ _
+        _ ≤ _ := add_le_add hr ih'
+    · simp only [hj, if_false, zero_add]
+      push_cast
+      linarith
+
+/-- column-wise bound after the (optional) aggregation -/
+theorem columns_corr_bound (types votes : List Nat) (corr : List Rat)
+    (hb : ∀ i, |corr.getD i 0| ≤ (votes.getD i 0 : Rat)) (k : Nat) :
+    |(columns types votes corr).2.1.getD k 0| ≤ ((columns types votes corr).1.getD k 0 : Rat) := by
+  unfold columns
+  split
+  · unfold aggregateVotes
+    simp only
+    by_cases hk : k < (uniqSorted types).length
+    · rw [List.getD_eq_getElem?_getD, List.getD_eq_getElem?_getD, List.getElem?_map,
+        List.getElem?_map, List.getElem?_eq_getElem hk]
+      simp only [Option.map_some, Option.getD_some]
+      exact sum_abs_bound _ _ _ (fun i _ => hb i)
+    · have hk' : (uniqSorted types).length ≤ k := Nat.le_of_not_lt hk
+      rw [List.getD_eq_getElem?_getD, List.getD_eq_getElem?_getD,
+        List.getElem?_eq_none (by simpa using hk'), List.getElem?_eq_none (by simpa using hk')]
+      simp
+  · exact hb k
+
+/-- C03: the average correlation of the winner and of every runner-up lies in
+    [-1, 1] when the column correlation sums are bounded by the votes -/
+theorem chooseCols_corr_range {V : List Nat} {C : List Rat} {T : List Nat} {iters nA : Nat}
+    {order : List Nat} {ch : Choice}
+    (h : chooseCols V C T iters nA order = .ok ch)
+    (hb : ∀ i, |C.getD i 0| ≤ (V.getD i 0 : Rat)) :
+    |ch.avgCorr| ≤ 1 ∧ ∀ r ∈ ch.runners, |r.avgCorr| ≤ 1 := by
+  have key : ∀ i, |C.getD i 0 / ((if 0 < V.getD i 0 then V.getD i 0 else 1 : Nat) : Rat)| ≤ 1 := by
+    intro i
+    have hbi := hb i
+    split
+    · next hpos =>
+      have hq : (0 : Rat) < (V.getD i 0 : Rat) := by exact_mod_cast hpos
+      rw [abs_div, abs_of_pos hq, div_le_one hq]
+      exact hbi
+    · next hz =>
+      have : V.getD i 0 = 0 := by omega
+      rw [this] at hbi
+      have : C.getD i 0 = 0 := by
+        have := abs_nonneg (C.getD i 0)
+        have h0 : |C.getD i 0| = 0 := le_antisymm (by simpa using hbi) this
+        exact abs_eq_zero.1 h0
+      rw [this]; simp
+  obtain ⟨_, w, rest, _, _, _, h3, h4⟩ := chooseCols_ok h
+  refine ⟨by rw [h3]; exact key w, ?_⟩
+  intro r hr
+  rw [h4] at hr
+  obtain ⟨i, _, rfl⟩ := List.mem_map.1 hr
+  exact key i
+
+end CTM.Election
+
+namespace CTM.Election
+open CTM.Numeric
+
+theorem tallyCell_corr_bound (n : Nat) (rows : List (Nat × Rat)) (h : ∀ r ∈ rows, |r.2| ≤ 1)
+    (i : Nat) : |(tallyCell n rows).2.getD i 0| ≤ ((tallyCell n rows).1.getD i 0 : Rat) := by
+  rw [tallyCell_votes, tallyCell_corr]
+  by_cases hi : i < n
+  · rw [List.getD_eq_getElem?_getD, List.getD_eq_getElem?_getD, List.getElem?_map,
+      List.getElem?_map, List.getElem?_range hi]
+    simp only [Option.map_some, Option.getD_some]
+    exact corrOfLeaf_bound rows h i
+  · have hi' : n ≤ i := Nat.le_of_not_lt hi
+    rw [List.getD_eq_getElem?_getD, List.getD_eq_getElem?_getD,
+      List.getElem?_eq_none (by simpa using hi'), List.getElem?_eq_none (by simpa using hi')]
+    simp
 
 end CTM.Election
